@@ -10,7 +10,7 @@
 From Coq Require Import ZArith NArith List Bool.
 From Coq.Strings Require Import Byte.
 Import ListNotations.
-Require Import MS.Base.Res MS.Base.Hex MS.Generated.Src_durab MS.Model.Wal MS.Model.Replay MS.Corr.Common.
+Require Import MS.Base.Res MS.Base.Hex MS.Generated.Src_durab MS.Model.Wal MS.Model.Replay MS.Model.PowerLoss MS.Corr.Common.
 Local Open Scope Z_scope.
 
 (* ------------------------------------------------------------------ decidable equalities (computational) *)
@@ -85,6 +85,9 @@ Record obs := {
     first recovery" for the prefixes j listed in [d_obs] ([o_k] = j) *)
 Record dbl := { d_k1 : nat; d_own3 : wid; d_rtrace : list event; d_obs : list obs }.
 
+(** C04: the real recovery on the image of prefix [o_k p_obs] with the writes at positions [p_drop] lost *)
+Record plobs := { p_drop : list nat; p_obs : obs }.
+
 Record case := {
   k_tgid0 : Z;                         (* first TG id (time.Now() of the run) *)
   k_owner : Z; k_owner2 : Z;           (* instance ids of the traced run and of the recovering run *)
@@ -94,7 +97,8 @@ Record case := {
   k_sched : list sev;
   k_trace : list event;
   k_obs : list obs;
-  k_double : list dbl
+  k_double : list dbl;
+  k_pl : list plobs
 }.
 
 (** Stored length of a block: the real encoder's length when the harness recorded one for this content;
@@ -175,8 +179,21 @@ Definition dbl_ok (k : case) (d : dbl) : bool :=
           | StartError => true
           end) (d_obs d).
 
+(** power loss: the model's recovery on the power-loss image behaves like the real one *)
+Definition drop_fn (l : list nat) (i : nat) : bool := existsb (Nat.eqb i) l.
+Definition pl_ok (k : case) (p : plobs) : bool :=
+  let cl := clen_of (k_clen k) in
+  let o := p_obs p in
+  let im := PowerLoss.pl_img (k_trace k) (o_k o) (drop_fn (p_drop p)) in
+  let '(evs, out) := recover cl (k_own2 k) (k_owner2 k) im in
+  Nat.eqb (model_class out) (if Nat.eqb (o_class o) 0 then 0 else 1)%nat
+  && match out with
+     | StartOk => all2 (bobs_ok (apply_events im evs)) (k_buckets k) (o_buckets o)
+     | StartError => true
+     end.
+
 Definition agrees (k : case) : bool :=
-  trace_ok k && forallb (obs_ok k) (k_obs k) && forallb (dbl_ok k) (k_double k).
+  trace_ok k && forallb (obs_ok k) (k_obs k) && forallb (dbl_ok k) (k_double k) && forallb (pl_ok k) (k_pl k).
 
 (** diagnostics for the driver: where the trace first differs / which prefixes disagree *)
 Definition trace_diff (k : case) : option nat :=
@@ -296,3 +313,19 @@ Definition c34_prop (k : case) : bool :=
            match out3 with StartOk => true | StartError => false end
            && forallb (fun b => qres_eqb (bucket_rows (apply_events im2 evs3) b) (bucket_rows im2 b)) (k_buckets k))))
     (k_double k).
+
+(** C04: the guarded statement that is NOT proved (Properties/C04.v C04_guarded_full), evaluated on the model
+    for every explored power-loss image: no variable write lost, crash point outside the windows =>
+    the model's recovery succeeds and shows every committed fixed value *)
+Definition drops_no_variableb (tr : list event) (kk : nat) (drop : nat -> bool) : bool :=
+  forallb (fun i => match nth_error tr i with
+                    | Some (EVData _ _ _ _) | Some (EVIndex _ _ _ _ _) => negb (drop i)
+                    | _ => true end) (seq 0 kk).
+Definition c04_prop (k : case) : bool :=
+  forallb (fun p =>
+    let cl := clen_of (k_clen k) in
+    let n := o_k (p_obs p) in
+    let drop := drop_fn (p_drop p) in
+    implb (guard_crash (k_trace k) n && suffix_closed (k_trace k) n drop && drops_no_variableb (k_trace k) n drop)
+          (match snd (recover cl (k_own2 k) (k_owner2 k) (pl_img (k_trace k) n drop)) with StartOk => true | _ => false end))
+    (k_pl k).
